@@ -7,6 +7,7 @@ import (
 	"math/big"
 	"strings"
 
+	compact_float "github.com/kstenerud/go-compact-float"
 	compact_time "github.com/kstenerud/go-compact-time"
 	"github.com/kstenerud/go-concise-encoding/ce/events"
 	"verif/harness/internal/codec"
@@ -300,6 +301,12 @@ func forEachCorpusDoc(c *fx.Ctx, o corpusOpts, visit func(doc []ev.E, cls string
 	// 2b. pair sweep
 	pairSweep(c, o, visit)
 
+	// 2d. key pairs: every ordered pair of map keys whose text or numeric value coincides across types and delivery forms
+	keyPairSweep(c, visit)
+
+	// 3b. long arrays: payloads around the decoders' 64 KiB read-ahead / buffer growth steps
+	longArraySweep(c, visit)
+
 	// 2c. reference family: forward/backward references in containers of growing size
 	for _, rd := range refFamily(o.refMaxLen) {
 		if !c.Take() {
@@ -371,6 +378,79 @@ func forEachCorpusDoc(c *fx.Ctx, o corpusOpts, visit func(doc []ev.E, cls string
 					c.Add("array_docs", 1)
 					visit(cx.Wrap(f...), "array:"+k.Name+":"+formName(f))
 				}
+			}
+		}
+	}
+}
+
+// keyAlphabet: keys that share their text or their numeric value with a key of another type, whole and chunked.
+func keyAlphabet() [][]ev.E {
+	one := func(e ev.E) []ev.E { return []ev.E{e} }
+	chunked := func(at events.ArrayType, s string) []ev.E {
+		return []ev.E{ev.EABegin(at), ev.EChunk(1, true), ev.EData([]byte(s[:1])), ev.EChunk(uint64(len(s)-1), false), ev.EData([]byte(s[1:]))}
+	}
+	return [][]ev.E{
+		one(ev.EStr("a:b")), one(ev.ESArr(events.ArrayTypeResourceID, "a:b")), chunked(events.ArrayTypeString, "a:b"), chunked(events.ArrayTypeResourceID, "a:b"),
+		one(ev.EStr("a:c")), one(ev.ESArr(events.ArrayTypeResourceID, "a:c")),
+		one(ev.EStr("1")), one(ev.EPInt(1)), one(ev.EFloat(1)), one(ev.EDFloat(compact_float.DFloatValue(0, 1))), one(ev.EBigInt(big.NewInt(1))), one(ev.EDFloat(compact_float.DFloatValue(-1, 10))),
+		one(ev.EStr("-1")), one(ev.ENInt(1)), one(ev.EFloat(-1)), one(ev.EInt(-1)),
+		one(ev.EPInt(0)), one(ev.EFloat(0)), one(ev.EFloat(math.Copysign(0, -1))), one(ev.EDFloat(compact_float.DFloatValue(0, 0))), one(ev.EStr("0")),
+		one(ev.ETrue()), one(ev.EFalse()), one(ev.EStr("true")),
+		one(ev.ETime(compact_time.NewDate(2020, 1, 15))), one(ev.EStr("2020-01-15")),
+		one(ev.EUID(gen.UIDValues()[2])), one(ev.EUID(gen.UIDValues()[1])),
+		one(ev.EPInt(300)), one(ev.ENInt(300)), one(ev.EInt(-300)), one(ev.EStr("300")), one(ev.EPInt(1 << 32)), one(ev.ENInt(1 << 32)), one(ev.ENInt(1 << 63)), one(ev.EPInt(1 << 63)),
+		one(ev.EBigInt(new(big.Int).Lsh(big.NewInt(1), 64))), one(ev.EBigInt(new(big.Int).Neg(new(big.Int).Lsh(big.NewInt(1), 64)))),
+		one(ev.EPInt(1 << 53)), one(ev.EFloat(1 << 53)), one(ev.EPInt(1<<53 + 1)),
+		one(ev.EFloat(0.5)), one(ev.EDFloat(compact_float.DFloatValue(-1, 5))), one(ev.EFloat(0.1)), one(ev.EDFloat(compact_float.DFloatValue(-1, 1))),
+	}
+}
+
+func keyPairSweep(c *fx.Ctx, visit func(doc []ev.E, cls string)) {
+	keys := keyAlphabet()
+	for _, a := range keys {
+		if !c.Take() {
+			continue
+		}
+		for _, b := range keys {
+			doc := []ev.E{ev.EBD(), ev.EV(0), ev.EMap()}
+			doc = append(doc, a...)
+			doc = append(doc, ev.EPInt(1))
+			doc = append(doc, b...)
+			doc = append(doc, ev.EPInt(2), ev.EEnd(), ev.EED())
+			c.Add("key_pair_docs", 1)
+			visit(doc, "keypair:"+valueClass(a[0])+"+"+valueClass(b[0]))
+		}
+	}
+}
+
+func longArraySweep(c *fx.Ctx, visit func(doc []ev.E, cls string)) {
+	kinds := gen.ArrayKinds()
+	for _, ki := range []int{0, 5, 7, 9, 17} { // String, Media, Uint8, Uint32, Float64
+		k := kinds[ki]
+		for _, nbytes := range []int{65535, 65536, 65537, 131080, 200001} {
+			if !c.Take() {
+				continue
+			}
+			n := nbytes / k.ElemBytes
+			content := k.Content(n)
+			if k.Text {
+				n = len(content)
+			}
+			h := (n / 3) * k.ElemBytes
+			if k.Text {
+				for content[h]&0xC0 == 0x80 {
+					h--
+				}
+			}
+			he := h / k.ElemBytes
+			forms := [][]ev.E{{k.Whole(content, n)[0]}, {k.Begin(), ev.EChunk(uint64(n), false), ev.EData(content)}}
+			if len(content)-h > 70000 {
+				forms = append(forms, []ev.E{k.Begin(), ev.EChunk(uint64(he), true), ev.EData(content[:h]), ev.EChunk(uint64(n-he), false), ev.EData(content[h : h+70000]), ev.EData(content[h+70000:])})
+			}
+			for _, f := range forms {
+				c.Add("long_array_docs", 1)
+				visit(append(append([]ev.E{ev.EBD(), ev.EV(0)}, f...), ev.EED()), "long-array:"+k.Name+":"+formName(f))
+				visit(append(append([]ev.E{ev.EBD(), ev.EV(0), ev.EList(), ev.EPInt(1)}, f...), ev.EPInt(2), ev.EEnd(), ev.EED()), "long-array:"+k.Name+":"+formName(f))
 			}
 		}
 	}
